@@ -178,10 +178,21 @@ def lexeme_sequences(n, seps):
 
 def run(tier, rep):
     total = Acc()
-    strs = CH.all_strings(tier)
-    total.merge(run_texts(strs))
-    rep.space('sigma-char', strings=len(strs),
-              spaces=[(n, len(a), k) for n, a, k in CH.spaces(tier)])
+    sp, tasks = CH.string_tasks(tier, 'lex')
+
+    def work_tasks(chunk, idx):
+        acc = Acc()
+        for task in chunk:
+            for t in CH.strings_of_task(sp, task):
+                check_text(acc, t)
+        return acc
+    nstr = 0
+    for a in pmap(work_tasks, tasks):
+        nstr += a.cases
+        total.merge(a)
+    strs = list(CH.strings_of_task(sp, tasks[len(tasks) // 2]))[:5] or ['a']
+    rep.space('sigma-char', strings=nstr,
+              spaces=[(n, len(a), k) for n, a, k in sp])
     if tier == 'quick':
         seqs = lexeme_sequences(2, ['', ' ', '\n']) 
         small = CH.LEXEMES[:34]
@@ -196,6 +207,12 @@ def run(tier, rep):
     corpus = harvest()
     total.merge(run_texts(corpus))
     rep.space('S0', texts=len(corpus))
+    words = CH.confusable_words(R1.RESERVED)
+    wtexts = []
+    for w in words:
+        wtexts += [w, w + ' (a)', 'x.' + w, w + '\n' + w]
+    total.merge(run_texts(wtexts))
+    rep.space('keyword-confusables', words=len(words), texts=len(wtexts))
     rep.bag.merge(total.bag)
     rep.cov['evaluations'] = total.cases
     rep.cov['distinct_nontrivial'] = total.nontrivial
